@@ -579,6 +579,20 @@ class Exec(ExprMixin, SpecMixin, Engine):
         return out
 
     def call_contract(self, s, con, recv, args, kw):
+        # summaries of nodes whose state this body has changed are refreshed before they are handed
+        # to a callee (ghost 'refresh_before' of the contract under verification)
+        rb = (self.cur.ghost.get("refresh_before") or {}) if self.cur is not None else {}
+        short = con.ghost.get("of", con.name).split(".")[-1]
+        if short in rb and self.inline_depth == 0:
+            ctx_r = SpecCtx(self.entry_stack[-1], s)
+            for nm in rb[short]:
+                obj = recv if nm == "self" and recv is not None and False else s.env.get(nm)
+                if obj is not None and obj.kind == "ref":
+                    goals = self.derive_node(self.cur, s, obj, ctx_r)
+                    # the summary "well formed" handed to the callee is established clause by clause
+                    for k, g_ in goals.items():
+                        self.oblige(s, "%s:before-%s:%s[%s]" % (self.cur.name, short, k, nm), g_)
+                        s.assume(g_, tag="refresh:" + k)
         fdef = self.sources.get(con.ghost.get("of", con.name))
         if fdef is not None:
             env = self.bind_params(fdef, recv, args, kw, s)
@@ -593,6 +607,8 @@ class Exec(ExprMixin, SpecMixin, Engine):
                 continue
             alts = spec if isinstance(spec, list) else [spec]
             kinds = [parse_kind(a)[0] if not isinstance(a, tuple) else "tuple" for a in alts]
+            if env[nm].kind == "none" and "none" not in kinds and "V" in kinds:
+                env[nm] = SV("V", z3.Int("V_None"))     # the object None used as a value
             if env[nm].kind == "int" and "int" not in kinds and "V" in kinds:
                 env[nm] = SV("V", env[nm].z)        # a value read from an int-typed field (cursor.value)
             if env[nm].kind not in kinds:
